@@ -31,7 +31,8 @@ impl StateMachine<'_> {
     //@ stub src/handlers/hunk_header.rs StateMachine::emit_hunk_header_line spec=hunk_header.emit_hunk_header_line
     //@ fn src/handlers/hunk.rs StateMachine::test_hunk_line
     //@| ensures r == (self.state is HunkHeader || self.state is HunkZero || self.state is HunkMinus || self.state is HunkPlus),  // @C01,C02,C04:hunk.lines.are.the.lines.that.arrive.in.a.hunk.state
-    //@ fn src/handlers/hunk.rs StateMachine::handle_hunk_line spec=hunk.handle_hunk_line
+    // (this one query needs about 30 of the default 40 rlimit units; it gets 80 so that a harmless edit of the function does not push it over)
+    //@ fn src/handlers/hunk.rs StateMachine::handle_hunk_line spec=hunk.handle_hunk_line attrs=verifier::rlimit(80)
     //@before? <<<if let State::HunkHeader(_, parsed_hunk_header, line, raw_line) = &self.state.clone()>>>| assert(/* @C01,C02,C11:hhl.order.step */ all_lines(&self.painter) =~= all_lines(&old(self).painter));
     //@before <<<self.state = match new_line_state(>>>| assert(/* @C01,C02,C11:hhl.order.step */ all_lines(&self.painter) =~= all_lines(&old(self).painter)); let ghost mid = all_lines(&self.painter);
     //@before#1/2 <<<let n_parents = diff_type.n_parents(); let line = prepare(&self.line, n_parents, self.config);>>>| assert(/* @C01,C02,C11:hhl.order.step */ all_lines(&self.painter) =~= mid); assert(self.painter.plus_lines@.len() == 0);
